@@ -507,3 +507,31 @@ def rule_st_amount(ctx, R):
                 R.finding(fn, "length-decrement:amount-not-tied-to-removals",
                           "%s subtracts from the XLEN counter (line %d) an amount that is not tied to the entries actually removed (not a per-removal counter, a len() difference or the drain bound): a request naming one ID twice, or an ID that is absent, makes XLEN differ from the entries present" % (fn.split("::")[-1], b.bb_line(i)), b.loc(i))
     R.floor("length_decrements", n)
+
+
+def rule_cg_idle(ctx, R):
+    """idle time = time since the LAST delivery (XCLAIM/XAUTOCLAIM thresholds, XPENDING's idle
+    column): every `duration_since` in the consumer-group code that feeds an idle value takes
+    PendingEntry.last_delivery -- the field transfer_ownership resets -- and nothing derives a
+    duration from delivered_at (first delivery, never updated)"""
+    n = 0
+    for fn, b in sorted(ctx.prog.bodies.items()):
+        if not fn.startswith("storage::consumer_groups::") or "::tests::" in fn:
+            continue
+        for i, t in b.calls():
+            if not re.search(r"SystemTime::(duration_since|elapsed)$", t["f"] or ""):
+                continue
+            flds = set()
+            for a in t["a"]:
+                if not op_is_const(a):
+                    flds |= {f for f in prov.operand_origins(b, a).fields if f.startswith("storage::consumer_groups::PendingEntry.")}
+            if not flds:
+                continue
+            n += 1
+            ok = flds == {"storage::consumer_groups::PendingEntry.last_delivery"}
+            R.inst(fn, "idle-source", {"function": fn, "at": b.loc(i), "fields": sorted(f.rsplit(".", 1)[-1] for f in flds)})
+            if not ok:
+                R.finding(fn, "idle-source:%s" % "+".join(sorted(f.rsplit(".", 1)[-1] for f in flds)),
+                          "%s computes an idle time from %s (line %d); idle time counts from the last delivery (last_delivery, reset by every claim), so an entry claimed a moment ago looks idle to the next XCLAIM with a threshold and is taken away from its new owner" % (
+                              fn.split("::")[-1], ", ".join(sorted(f.rsplit(".", 1)[-1] for f in flds)), b.bb_line(i)), b.loc(i))
+    R.floor("idle_computations", n)
